@@ -387,10 +387,11 @@ def module_source(units: list[dict]) -> tuple[str, dict[str, tuple[int, int]]]:
     lines = HEADER.rstrip("\n").split("\n") + [f"import {m}" for m in imports] + [""]
     pre_seen: set[str] = set()
     for u in units:
-        p = u.get("prelude")
-        if p and p not in pre_seen:
-            pre_seen.add(p)
-            lines += p.rstrip("\n").split("\n") + [""]
+        pre = u.get("prelude") or []
+        for p in ([pre] if isinstance(pre, str) else pre):  # one chunk or a list of chunks, each emitted once
+            if p not in pre_seen:
+                pre_seen.add(p)
+                lines += p.rstrip("\n").split("\n") + [""]
     spans = {}
     wrap = None
     for u in units:
